@@ -152,7 +152,20 @@ def run(ctx: Ctx) -> int:
     gd = ctx.func("_core:ArgumentParser.get_defaults")
     ctx.expect_locals(gd, ["cfg", "action"])
     stores = [s for s in walk_local(gd) if isinstance(s, ast.Assign) and isinstance(s.targets[0], ast.Subscript) and root_name(s.targets[0].value) == "cfg" and any(isinstance(n, ast.Attribute) and n.attr == "default" for n in ast.walk(s.value))]
+    if not stores:
+        # the store goes through a local: find `<local> = action.default` and the store of that local
+        via = [s_ for s_ in walk_local(gd) if isinstance(s_, ast.Assign) and isinstance(s_.targets[0], ast.Name) and isinstance(s_.value, ast.Attribute) and s_.value.attr == "default"]
+        for v_ in via:
+            st2 = [s_ for s_ in walk_local(gd) if isinstance(s_, ast.Assign) and isinstance(s_.targets[0], ast.Subscript) and root_name(s_.targets[0].value) == "cfg" and isinstance(s_.value, ast.Name) and s_.value.id == v_.targets[0].id]
+            copies = [s_ for s_ in walk_local(gd) if isinstance(s_, ast.Assign) and isinstance(s_.targets[0], ast.Name) and s_.targets[0].id == v_.targets[0].id and isinstance(s_.value, ast.Call) and call_leaf(s_.value) in ("recreate_branches", "deepcopy")]
+            from .util import guard_atoms as _ga8
+
+            for st_ in st2:
+                ok = bool(copies) and all(not _ga8(c_, stop=gd) or _ga8(c_, stop=gd) == _ga8(st_, stop=gd) for c_ in copies) and ctx.cfg(gd).must_pass(ctx.cfg(gd).cn(copies), ctx.cfg(gd).cn(v_), ctx.cfg(gd).cn(st_), exclude_labels={"e"}, strict=True)
+                ctx.oblige("C08.c", ok, st_, "declared defaults enter the defaults namespace through a copy on every path" if ok else "a declared default reaches the returned configuration without a copy on some path (the copy is conditional on the default's class): a dict default is shared with the parse result, values parsed into it stay in the parser's declared default for every later parse", fn=gd)
+                stores.append(st_)
     ctx.need(stores, "get_defaults: cfg[action.dest] = <copy>(action.default)")
+    stores = [s_ for s_ in stores if any(isinstance(n, ast.Attribute) and n.attr == "default" for n in ast.walk(s_.value))]
     for s in stores:
         v = s.value
         ok = isinstance(v, ast.Call) and call_leaf(v) in ("recreate_branches", "deepcopy") and v.args and isinstance(v.args[0], ast.Attribute) and v.args[0].attr == "default"
